@@ -205,3 +205,47 @@ def check_to_string_prints_rounded(run, fx):
     if n < 4:
         run.anchor_missing(rule, "to-string functions", "only %d rounding to-string functions found (expected >= 4: PlainTime, "
                                                         "PlainDateTime, Instant, ZonedDateTime)" % n)
+
+
+def check_duration_field_tables(run, fx):
+    """C06 / C09: the predicates that classify a duration by its non-zero fields"""
+    from .common import fold
+    rule = "R1.duration-field-classification"
+    run.rule(rule, "folded on the ten durations with exactly one non-zero field (both signs) and on the zero duration: "
+                   "Duration::is_time_duration is true exactly when the non-zero field is hours or smaller (a day is a date "
+                   "unit: Instant / PlainTime arithmetic must refuse it), Duration::default_largest_unit is the unit of that "
+                   "field (nanosecond for zero), Duration::sign is the sign of that field")
+    rs = fx["temporal_rs"]
+    D = CORE + "duration::"
+    F = "temporal_rs::primitive::FiniteF64"
+    DF = ["years", "months", "weeks", "days"]
+    TF = ["hours", "minutes", "seconds", "milliseconds", "microseconds", "nanoseconds"]
+    UNIT = {"years": "Year", "months": "Month", "weeks": "Week", "days": "Day", "hours": "Hour", "minutes": "Minute",
+            "seconds": "Second", "milliseconds": "Millisecond", "microseconds": "Microsecond", "nanoseconds": "Nanosecond"}
+
+    def dur(nz, val):
+        dd = H.S(D + "date::DateDuration", tuple((n, H.V(F, (val if n == nz else 0.0,))) for n in DF))
+        td = H.S(D + "time::TimeDuration", tuple((n, H.V(F, (val if n == nz else 0.0,))) for n in TF))
+        return H.S(D + "Duration", (("date", dd), ("time", td)))
+    fns = {n: rs.fn1("Duration::" + n) for n in ("is_time_duration", "default_largest_unit", "sign")}
+    for name, f in fns.items():
+        if f is None:
+            run.anchor_missing(rule, name, "Duration::%s not found" % name)
+            continue
+        for nz in DF + TF + [None]:
+            for val in ((1.0, -1.0) if nz else (0.0,)):
+                got = fold(H.Evaluator(fx), f, [dur(nz, val)])
+                key = "%s/%s%s" % (name, nz or "zero", "" if val >= 0 else "/negative")
+                if got[0] != "val":
+                    run.ok(rule, key, "does not fold: not decided", f.loc, nontrivial=False)
+                    continue
+                if name == "is_time_duration":
+                    want = nz not in DF
+                elif name == "default_largest_unit":
+                    want = H.V("temporal_rs::options::Unit::" + (UNIT[nz] if nz else "Nanosecond"), ())
+                else:
+                    want = H.V("temporal_rs::Sign::" + ("Zero" if not nz else "Positive" if val > 0 else "Negative"), ())
+                run.check(got[1] == want, rule, key, "%s = %s" % (name, show(want)),
+                          "Duration::%s of a duration whose only non-zero field is %s = %s is %s, expected %s" %
+                          (name, nz or "none", val, show(got[1])[:60], show(want)), f.loc)
+    run.exhaustive_tables.append("Duration field classification (10 fields x 2 signs + zero)")
